@@ -178,11 +178,15 @@ def case_paths(ctx, collide=None):
                 # 3./4. query and eval need expression syntax: quoted parts, or identifiers
                 if kind == "quoted" or (kind == "plain" and is_ident(nest) and is_ident(f)) or (kind == "half"):
                     thr = markers[(nest, f)]["vals"][1]
+                    # the same condition with the path under a unary operator / function: the layer it filters is the
+                    # layer the path names, however the path is wrapped
+                    qform = rng.choice(["{p} > {thr}", "~({p} <= {thr})", "not ({p} <= {thr})", "-{p} < -{thr}",
+                                        "abs({p}) > {thr}"]).format(p=p, thr=thr)
                     def qry():
-                        r = nf.query(f"{p} > {thr}")
+                        r = nf.query(qform)
                         return [None if v is None else float(v) for v in pa.array(r[nest].nest[f]).to_pylist()]
-                    ctx.case("names.query", inp, call_real(qry), None, {"ok": [v for v in want if v is not None and v > thr]},
-                             features=feats)
+                    ctx.case("names.query", {**inp, "query": qform}, call_real(qry), None,
+                             {"ok": [v for v in want if v is not None and v > thr]}, features=feats + (qform.split("{")[0][:4],))
                     def evl():
                         r = nf.eval(f"{p} + 0")
                         return [None if v is None else float(v) for v in pa.array(r).to_pylist()]
